@@ -567,7 +567,7 @@ Section DeEqs.
     match fuel with
     | 0 => plain_de w c
     | S f => match c_disc (cls E c) with
-             | Some wf => dispatch E (tag_of w) wf (subclasses E c) (fd f)
+             | Some wf => dispatch E (tag_of w) wf (c_tagger (cls E c)) (subclasses E c) (fd f)
              | None => plain_de w c
              end
     end.
@@ -589,7 +589,7 @@ Section DeEqs.
   Lemma unpack_TDc w c : unpack E w (TDc c) = call_dc_de w c.
   Proof. destruct w; reflexivity. Qed.
   Lemma unpack_TDisc w p wf sup :
-    unpack E w (TDisc p wf sup) = dispatch E (tag_of w) wf (disc_variants E p sup) (call_dc_de w).
+    unpack E w (TDisc p wf sup) = dispatch E (tag_of w) wf false (disc_variants E p sup) (call_dc_de w).
   Proof. destruct w; reflexivity. Qed.
   Lemma unpack_TUnion w cs : unpack E w (TUnion cs) = dtry (map (call_dc_de w) (dedup_nat cs [])).
   Proof. destruct w; reflexivity. Qed.
@@ -646,13 +646,13 @@ Section DeTrace.
   Qed.
 
   (* a deterministic dispatch (with a field) inherits the property from the variants' from_dict *)
-  Lemma dispatch_trav tg vs (fd: nat -> D) :
+  Lemma dispatch_trav tg tgr vs (fd: nat -> D) :
     (forall v n r tr n', fd v n = (Some r, tr, n') -> tr = trav_de E r) ->
-    forall n r tr n', dispatch E tg true vs fd n = (Some r, tr, n') -> tr = trav_de E r.
+    forall n r tr n', dispatch E tg true tgr vs fd n = (Some r, tr, n') -> tr = trav_de E r.
   Proof.
     intros Hfd n r tr n' H. unfold dispatch in H.
     destruct tg as [[t|]|]; try discriminate.
-    destruct (lookup_tag E vs t) as [v|]; [|discriminate].
+    destruct (lookup_tag E tgr vs t) as [v|]; [|discriminate].
     apply (Hfd v n r tr n' H).
   Qed.
 
@@ -828,7 +828,7 @@ Proof. intros E w t n r tr n' HE Hu H. apply (unpack_trav E HE w t n r tr n' Hu 
    from_dict of the variant registered for the tag: same result, same identities, same events.  In
    particular the base's own hooks are not run a second time around the dispatch. *)
 Theorem disc_config_dispatch E c t v kvs n :
-  c_disc (cls E c) = Some true -> lookup_tag E (subclasses E c) t = Some v -> c_disc (cls E v) = None ->
+  c_disc (cls E c) = Some true -> lookup_tag E (c_tagger (cls E c)) (subclasses E c) t = Some v -> c_disc (cls E v) = None ->
   unpack E (WDict (Some t) kvs) (TDc c) n = unpack E (WDict (Some t) kvs) (TDc v) n.
 Proof.
   intros Hc Hl Hv. rewrite !unpack_TDc. unfold call_dc_de. simpl from_dict_f. rewrite Hc, Hv.
@@ -836,7 +836,7 @@ Proof.
 Qed.
 
 Theorem disc_annotated_dispatch E p sup t v kvs n :
-  lookup_tag E (disc_variants E p sup) t = Some v -> c_disc (cls E v) = None ->
+  lookup_tag E false (disc_variants E p sup) t = Some v -> c_disc (cls E v) = None ->
   unpack E (WDict (Some t) kvs) (TDisc p true sup) n = unpack E (WDict (Some t) kvs) (TDc v) n.
 Proof.
   intros Hl Hv. rewrite unpack_TDisc, unpack_TDc.
@@ -847,7 +847,7 @@ Qed.
 Theorem disc_no_variant E c kvs n :
   c_disc (cls E c) = Some true ->
   unpack E (WDict None kvs) (TDc c) n = (None, [], n) /\
-  (forall t, lookup_tag E (subclasses E c) t = None -> unpack E (WDict (Some t) kvs) (TDc c) n = (None, [], n)).
+  (forall t, lookup_tag E (c_tagger (cls E c)) (subclasses E c) t = None -> unpack E (WDict (Some t) kvs) (TDc c) n = (None, [], n)).
 Proof.
   intros Hc. split; [|intros t Hl]; rewrite unpack_TDc; unfold call_dc_de; simpl from_dict_f; rewrite Hc; unfold dispatch, tag_of.
   - reflexivity.
